@@ -864,9 +864,10 @@ func convBucket(c int) int {
 }
 
 // youngDecoder: a FRESH decoder (newestShardId = 0, no preset) whose first packets have ids at pos;
-// every group loses its first data packet and must recover it.  For pos >= 2^31 the real decoder
-// never advances newestShardId (the signed comparison with 0 is negative) and discards every shard
-// set at once (finding D13, kind fec-newest-init).
+// every group loses its first data packet and must recover it.  Regression for finding D13 (kind
+// fec-newest-init): before the repair ("the discard horizon starts at the first packet when no
+// shard set exists") a decoder joining at ids >= 2^31 never advanced newestShardId (the signed
+// comparison with 0 is negative) and discarded every shard set at once.
 func (x *runner) youngDecoder(d, p int, pos uint32, groups int) {
 	x.key.Reset()
 	x.o.Case("")
@@ -1131,7 +1132,8 @@ func Run(o *hx.Out, g *hx.Rng, tier string) {
 	// --- C07: fresh decoders joining a stream anywhere in the id space (no newestShardId preset)
 	for _, dp := range [][2]int{{2, 1}, {10, 3}, {1, 1}} {
 		n := uint32(dp[0] + dp[1])
-		for _, pos := range []uint32{0, 3 * n, 1 << 20 / n * n, (1<<31 - 1000) / n * n, (1<<31 + 1<<20) / n * n, 3 << 30 / n * n, pawsOf(int(n)) - 2*n} {
+		for _, pos := range []uint32{0, 3 * n, 1 << 20 / n * n, (1<<31 - 1000) / n * n, 1 << 31 / n * n, (1<<31 + 1<<20) / n * n, 3 << 30 / n * n,
+			(1<<31 + g.U32()>>1) / n * n, pawsOf(int(n)) - 2*n, pawsOf(int(n)) - 13*n} {
 			x.youngDecoder(dp[0], dp[1], pos, 12)
 		}
 	}
